@@ -1209,7 +1209,7 @@ fn c02_flow_write_after_head() {
 }
 
 //@ props: C09 C11
-//@ tier: thorough
+//@ tier: off
 //@ unwind: 6
 //@ unwindset: memcmp=14 from_static=14 extend_with=10 FnvHasher=10 3all5check=18 eq_ignore_ascii_case=18 from_fn=6
 //@ timeout: 3000
@@ -1414,4 +1414,98 @@ fn c10_recv_response_location_302() {
 #[kani::stub(crate::parser::try_parse_response, crate::parser::verif_h::p_try_parse_response)]
 fn c10_recv_response_content_length_5() {
     c10_recv_response_field_case(200, 2);
+}
+
+// =====================================================================================
+// C05 — strict prefixes of a response head that end before its first field (real parser glue)
+// =====================================================================================
+
+/// sc: 0 empty input | 1 inside the version token ("HTTP/1.") | 2 version token only | 3 status line of a final
+/// response without the empty line | 4 status line of a 3xx without the empty line (no Location yet)
+fn c05_prefix_case(sc: usize) {
+    let code: usize = kani::any();
+    match sc {
+        3 => kani::assume((code >= 200 && code <= 299) || (code >= 400 && code <= 999)),
+        4 => kani::assume(code >= 300 && code <= 399),
+        _ => kani::assume(code == 200),
+    }
+    let (buf, _head_len) = c11_bytes(1, code, false, false);
+    let l = match sc {
+        0 => 0,
+        1 => 7,
+        2 => 8,
+        _ => 16,
+    };
+    match sc {
+        0 | 1 => ph::script(0, 0, 0, 0, 0, 0),
+        2 => ph::script(0, 2, 0, 0, 0, 0),
+        _ => ph::script(0, 2, code, 0, 0, 0),
+    }
+    let reasons = any_reasons(true, false);
+    let n0 = reasons_count(&reasons);
+    let holder = CallHolder::RecvResponse(ch::mk_call_in(3, 0, bh::mk_writer_none(), None, true));
+    let mut flow: Flow<(), RecvResponse> = mk_flow(mk_inner(holder, &reasons, false, kani::any(), None, None));
+    let r = flow.try_response(&buf[..l]);
+    match r {
+        Err(e) => {
+            core::mem::forget(e);
+            assert!(false, "C05/strict-prefix-is-never-an-error");
+        }
+        Ok((n, resp)) => {
+            assert!(n == 0, "C05/strict-prefix-consumes-nothing");
+            assert!(resp.is_none(), "C05/strict-prefix-yields-no-response");
+            core::mem::forget(resp);
+        }
+    }
+    assert!(!flow.can_proceed() && flow.inner.status.is_none(), "C05/strict-prefix-leaves-the-flow-waiting");
+    assert!(flow.inner.close_reason.len() == n0, "C10/no-reason-without-condition");
+    kani::cover!(true, "cell-reached");
+    core::mem::forget(flow);
+}
+
+//@ props: C12 C01
+//@ tier: off
+//@ unwind: 6
+//@ unwindset: memcmp=12 c11_bytes=18 from_bytes=20 parse_hdr=20 FnvHasher=20
+//@ timeout: 1500
+//@ mem: 24
+//@ encodes: Flow::<RecvResponse>::try_response, Call::<RecvResponse>::try_response (complete parse, partial-parse fallback), parser::try_parse_response::<128>, parser::try_parse_partial_response::<128>
+//@ stubs_note: httparse::Response::parse replaced by the script environment (what httparse reports for the scenario's bytes: Partial with nothing / version / version+code); hoot's glue runs for real; native replay runs the real httparse on those bytes
+//@ vars: concrete per harness: where the prefix ends (empty | inside the version token | after the version token | after the status line of a final status | after the status line of a 3xx). Symbolic: the status within its class, recorded close reasons, await flag
+//@ bounds: prefixes that end before the first header field
+//@ outside: prefixes that contain complete header fields (in particular a 3xx cut after its Location line, which the partial-parse fallback deliberately accepts), complete heads (building a Response with fields is out of reach)
+//@ clause: offering a strict prefix of a head yields need-more-data: zero bytes consumed, no response, never an error, the flow keeps waiting
+#[kani::proof]
+#[kani::stub(httparse::Response::parse, crate::parser::verif_h::hs_partial_nothing)]
+fn c05_prefix_empty() {
+    c05_prefix_case(0);
+}
+
+//@ like: c05_prefix_empty
+#[kani::proof]
+#[kani::stub(httparse::Response::parse, crate::parser::verif_h::hs_partial_nothing)]
+fn c05_prefix_inside_version_token() {
+    c05_prefix_case(1);
+}
+
+//@ like: c05_prefix_empty
+//@ tier: quick
+#[kani::proof]
+#[kani::stub(httparse::Response::parse, crate::parser::verif_h::hs_partial_version)]
+fn c05_prefix_version_token_only() {
+    c05_prefix_case(2);
+}
+
+//@ like: c05_prefix_empty
+#[kani::proof]
+#[kani::stub(httparse::Response::parse, crate::parser::verif_h::hs_partial_status)]
+fn c05_prefix_status_line_final() {
+    c05_prefix_case(3);
+}
+
+//@ like: c05_prefix_empty
+#[kani::proof]
+#[kani::stub(httparse::Response::parse, crate::parser::verif_h::hs_partial_status)]
+fn c05_prefix_status_line_redirect() {
+    c05_prefix_case(4);
 }
